@@ -134,6 +134,29 @@ func AssertKnown(id string, b bool, msg string) {
 	}
 }
 
+// And/Or/Implies/Ite combine booleans without the path fork that && and || cause in the engine.
+func And(a, b bool) bool     { return a && b }
+func Or(a, b bool) bool      { return a || b }
+func Implies(a, b bool) bool { return !a || b }
+func IteInt(c bool, a, b int) int {
+	if c {
+		return a
+	}
+	return b
+}
+func IteInt64(c bool, a, b int64) int64 {
+	if c {
+		return a
+	}
+	return b
+}
+func IteUint(c bool, a, b uint) uint {
+	if c {
+		return a
+	}
+	return b
+}
+
 func MustCover(fn ...string)     {}
 func Bound(name string, n int)   {}
 func SelectAll(on bool)          {}
